@@ -17,7 +17,7 @@ PROPS = {
                      mc("MCBodyWriter", "MCBodyWriter_chunked_defect3.cfg", expect_violation="Refines")],
         "mc_thorough": [mc("MCBodyWriter", "MCBodyWriter_chunked_impl.cfg"), mc("MCBodyWriter", "MCBodyWriter_chunked_abs_thorough.cfg", workers=8),
                         mc("MCChunkPlan", "MCChunkPlan_small.cfg"), mc("MCChunkPlan", "MCChunkPlan_real_quick.cfg", workers=8)],
-        "require_classes": ["w:term", "w:multi-chunk", "w:finish-no-room", "w:err", "w:partial"],
+        "require_classes": ["w:term", "w:finish-no-room", "w:err", "w:partial"],
         "rule": "one case = a fresh chunked writer (Flow<SendBody> or Call<WithBody>) + a schedule of (input length, buffer length) writes; "
                 "distinct = distinct (generator family, api, lengths / log2-shape of the schedule)",
         "assumptions": BW_ASSUME,
@@ -50,7 +50,7 @@ PROPS = {
                      mc("MCSendLoop", "MCSendLoop_defect.cfg", workers=2, expect_violation="Terminates")],
         "mc_thorough": [mc("MCChunkPlan", "MCChunkPlan_small.cfg"), mc("MCChunkPlan", "MCChunkPlan_real_thorough.cfg", workers=16, timeout=3000),
                         mc("MCSendLoop", "MCSendLoop.cfg", workers=2), mc("MCSendLoop", "MCSendLoop_real.cfg", workers=2)],
-        "require_classes": ["w:partial", "w:multi-chunk", "w:large-then-small"],
+        "require_classes": ["w:partial", "w:large-then-small"],
         "rule": "one case = one probe write (input length, buffer length) on a fresh writer, grouped in rows per buffer length, "
                 "or one whole-body send loop with a fixed buffer; distinct = distinct (buffer length, input length) / loop configuration",
         "assumptions": BW_ASSUME,
@@ -74,7 +74,7 @@ PROPS["C08"] = {
     "driver": "c08", "trace_spec": "TraceBodyReader",
     "mc_quick": [mc("MCBodyReader", "MCBodyReader.cfg"), mc("MCBodyReader", "MCBodyReader_close.cfg"), mc("LengthInd", "", tool="apalache", inv="IndInv")],
     "mc_thorough": [mc("MCBodyReader", "MCBodyReader_thorough.cfg", workers=8), mc("MCBodyReader", "MCBodyReader_close.cfg"), mc("LengthInd", "", tool="apalache", inv="IndInv")],
-    "require_classes": ["r:nothing", "r:filled-output", "verdict:close", "r:streamed-4g"],
+    "require_classes": ["r:nothing", "r:filled-output", "verdict:close", "r:streamed-4g", "close:keep-alive-promised"],
     "rule": "one case = a Content-Length body of N bytes followed by bytes of a next response (or a close-delimited body) + an arrival/buffer schedule; "
             "distinct = distinct (api, N, buffer sizes)",
     "assumptions": BR_ASSUME,
@@ -104,7 +104,7 @@ PROPS["C06"] = {
     "mc_quick": [mc("MCRespRules", "MCRespRules.cfg")] + [mc("MCRespRules", "MCRespRules_%s.cfg" % d, expect_violation="ImplAdmissible")
                  for d in ("LengthBeatsChunked", "ChunkedOnHttp10", "NoConnectClause", "No304Clause", "ChunkedExactCaseOnly")],
     "mc_thorough": [mc("MCRespRules", "MCRespRules_all.cfg", workers=8)],
-    "require_kinds": ["cell"], "require_classes": ["cell:after-interim"],
+    "require_kinds": ["cell"], "require_classes": ["cell:after-interim", "cell:closing-connection"],
     "rule": "one cell = (method, status, response version, Content-Length kind, Transfer-Encoding kind) fed as a head to a flow (or single call) built for that method; "
             "distinct = distinct methods and statuses (every cell of their product with 2 x 5 x 5 header combinations is evaluated)",
     "assumptions": ["Content-Length values with sign or leading zeros are outside the quantifier and not generated"],
@@ -115,7 +115,7 @@ REQ_ASSUME = ["the request is described to the specification through the flow's 
 PROPS["C02"] = {
     "driver": "c02", "trace_spec": "TraceSendHead",
     "mc_quick": [mc("MCSendHead", "MCSendHead.cfg"), mc("MCSendHead", "MCSendHead_f3.cfg", expect_violation="Refines")],
-    "require_classes": ["srw:overflow", "srw:after-complete", "srw:zero", "req:accepted"],
+    "require_classes": ["srw:overflow", "srw:after-complete", "srw:zero", "req:accepted", "c02:credentials-added-on-redirected"],
     "rule": "one case = one absolute-URI request (9 methods, HTTP/1.0/1.1, 0..60 original + 0..58 added headers incl. repeated names / obs-text / empty values, "
             "explicit/missing Host, optional CL or TE, despite-method, redirect depth 0..3, Flow and both Call constructors) x 5-8 buffer schedules "
             "(longest line +-1/2, exact line lengths, alternating short/long, random) + 3 calls after completion; distinct = distinct (method, version, api, depth, header-count classes)",
@@ -124,7 +124,7 @@ PROPS["C02"] = {
 PROPS["C16"] = {
     "driver": "c16", "trace_spec": "TraceSendHead",
     "mc_quick": [mc("MCSendHead", "MCSendHead.cfg")],
-    "require_classes": ["c16:added-on-redirected", "c16:despite", "req:accepted", "c16:added-both-framing-headers"],
+    "require_classes": ["c16:added-on-redirected", "c16:despite", "req:accepted", "c16:added-both-framing-headers", "c16:explicit-original-host"],
     "rule": "one case = a flow at redirect depth 0..3 (both auth policies) whose original request carries cookie/authorization/content-length, with 0..58 caller-added headers "
             "drawn from cookie, authorization, content-length, host, connection, x-*; the head is written through buffer schedules and lexed; distinct = distinct (method, depth, count class, policy)",
     "assumptions": REQ_ASSUME,
@@ -167,7 +167,7 @@ PROPS["C10"] = {
 PROPS["C11"] = {
     "driver": "c11", "trace_spec": "TraceFlow",
     "mc_quick": FLOW_MC_Q[:2], "mc_thorough": FLOW_MC_T,
-    "require_classes": ["c11:inStatusLine", "c11:afterStatusLine", "c11:bare100", "c11:bareOther", "c11:otherInFields", "c11:otherFieldLine", "c11:otherComplete", "c11:late100", "c11:second-100", "c11:completed"],
+    "require_classes": ["c11:inStatusLine", "c11:afterStatusLine", "c11:bare100", "c11:bareOther", "c11:otherInFields", "c11:otherFieldLine", "c11:otherComplete", "c11:late100", "c11:second-100", "c11:completed", "c11:despite-method", "c11:looked-again-after-refusal"],
     "rule": "one case = one interim/final server head (100 with 4 reason variants, refusals bare / with fields / with Connection: close) x the prefix length at which the caller stops looking (every length, cumulatively re-presented) "
             "x HTTP/1.0 / 1.1 x request framing, continued to Cleanup on whichever path the flow takes; distinct = distinct (message, variant, version, give-up point)",
     "assumptions": FLOW_ASSUME,
@@ -192,7 +192,7 @@ PROPS["C14"] = dict(PROPS["C13"], driver="c14", require_classes=["hop:second-or-
 PROPS["C15"] = {
     "driver": "c15", "trace_spec": "TraceRedirect",
     "mc_quick": REDIR_MC_Q[:1] + REDIR_MC_Q[4:], "mc_thorough": REDIR_MC_T,
-    "require_classes": ["hop:not-followed", "hop:despite-method", "hop:after-interim-100", "hop:interim-100-surfaced"], "require_kinds": ["hop", "landed"],
+    "require_classes": ["hop:not-followed", "hop:despite-method", "hop:after-interim-100", "hop:interim-100-surfaced", "hop:to-the-same-uri", "hop:answered-while-awaiting-100"], "require_kinds": ["hop", "landed"],
     "rule": "one case = one flow: 9 methods x every status 300..399 x both auth policies x with/without response body (3600 flows, all of them in both tiers); "
             "distinct = distinct (method, status)",
     "assumptions": REDIR_ASSUME,
